@@ -1,24 +1,47 @@
-// vdebug decodes a hex packet and prints it (development aid).
+// vdebug: development aid - decode a hex input of a given first layer from (a) an exact copy, (b) a slice with junk in its spare capacity.
 package main
 
 import (
 	"encoding/hex"
 	"fmt"
 	"os"
+	"strings"
 
 	"github.com/gopacket/gopacket"
 	"github.com/gopacket/gopacket/layers"
 )
 
+func show(tag string, b []byte, first gopacket.Decoder, o gopacket.DecodeOptions) {
+	p := gopacket.NewPacket(b, first, o)
+	fmt.Print(tag, ": ")
+	for _, l := range p.Layers() {
+		fmt.Print(l.LayerType(), "(", len(l.LayerContents()), "/", len(l.LayerPayload()), ") ")
+	}
+	fmt.Println("truncated:", p.Metadata().Truncated, "err:", p.ErrorLayer())
+}
+
 func main() {
-	b, _ := hex.DecodeString(os.Args[2])
+	hx := os.Args[2]
+	if strings.HasPrefix(hx, "@") {
+		b, _ := os.ReadFile(hx[1:])
+		hx = strings.TrimSpace(string(b))
+	}
+	in, _ := hex.DecodeString(hx)
 	var first gopacket.Decoder = layers.LayerTypeEthernet
 	if d, ok := gopacket.DecodersByLayerName[os.Args[1]]; ok {
 		first = d
 	}
-	p := gopacket.NewPacket(b, first, gopacket.Default)
-	for _, l := range p.Layers() {
-		fmt.Println(l.LayerType(), len(l.LayerContents()), len(l.LayerPayload()))
+	exact := make([]byte, len(in))
+	copy(exact, in)
+	show("exact   ", exact, first, gopacket.DecodeOptions{NoCopy: true})
+	big := make([]byte, len(in)+400)
+	for i := range big {
+		big[i] = 0x16
 	}
-	fmt.Println("truncated:", p.Metadata().Truncated, "err:", p.ErrorLayer())
+	copy(big, in)
+	show("embedded", big[:len(in)], first, gopacket.DecodeOptions{NoCopy: true})
+	show("lazy    ", exact, first, gopacket.DecodeOptions{NoCopy: true, Lazy: true})
+	show("pool    ", exact, first, gopacket.DecodeOptions{Pool: true})
+	show("poollazy", exact, first, gopacket.DecodeOptions{Pool: true, Lazy: true, DecodeStreamsAsDatagrams: true})
+	show("dflazy  ", exact, first, gopacket.DecodeOptions{Lazy: true, DecodeStreamsAsDatagrams: true})
 }
